@@ -42,6 +42,14 @@ Proof.
     apply IH in H1. rewrite Nat.pow_succ_r'. lia.
 Qed.
 
+Lemma size_nat_lower_nat : forall f x, N.size_nat (N.of_nat x) = S f -> 2 ^ f <= x.
+Proof.
+  induction f as [|f IH]; intros x E.
+  - destruct x; [discriminate|]. simpl. lia.
+  - apply size_nat_S in E. destruct E as [_ E]. rewrite Ndiv2_of_nat in E.
+    apply IH in E. rewrite Nat.pow_succ_r'. lia.
+Qed.
+
 Section Verify.
   Variable T : Type.
   Variable teqb : T -> T -> bool.
@@ -387,5 +395,165 @@ Section Verify.
         destruct (cons_loop_sound old_root fi L i _ _ _ _ _ _ _ _ _ HLne HiL eq_refl Hc Hu HtopL) as [C|[Ea Eb]]; [left; exact C|].
         right. rewrite Hold. rewrite <- (old_x_mth T hc hempty old_root fi L i HiL Hfi). rewrite <- Ea.
         rewrite <- Eb. symmetry. exact E2.
+  Qed.
+
+  (** * Consistency: completeness on the bottom-up proof *)
+  Lemma up_loop_complete d : forall f L rest,
+    L <> [] -> N.size_nat (N.of_nat (length L - 1)) = f ->
+    exists top, ups f L = [top] /\
+      up_loop f (nth 0 L d) (path_bu T hc d f 0 L ++ rest) = Some (top, rest).
+  Proof.
+    induction f as [|f IH]; intros L rest Hne Hf.
+    - apply size_nat_0 in Hf.
+      destruct L as [|x [|y l]]; simpl in *; try congruence; try lia. exists x. auto.
+    - pose proof (size_nat_S _ _ Hf) as [Hl0 Hf']. rewrite Ndiv2_of_nat in Hf'.
+      assert (Hlen : 2 <= length L) by lia.
+      pose proof (up_ne L Hne) as Hup.
+      rewrite <- (up_last_index L Hne) in Hf'.
+      destruct (IH (up L) rest Hup Hf') as (top & Htop & Hrun).
+      exists top. split; [exact Htop|].
+      cbn [Merkle.up_loop path_bu]. unfold sib. cbn [Nat.odd].
+      destruct (Nat.ltb_spec 0 (length L - 1)); [|lia].
+      cbn [app]. change (0 / 2) with 0. rewrite <- Hrun. f_equal.
+      rewrite (up_nth_pair T hc d L 0) by lia. reflexivity.
+  Qed.
+
+  Lemma cons_loop_complete d : forall f L i oh rest,
+    L <> [] -> i < length L -> N.size_nat (N.of_nat i) = f ->
+    cons_loop f (N.of_nat i) (N.of_nat (length L - 1)) oh (nth i L d) (path_bu T hc d f i L ++ rest)
+      = Some (N.of_nat (length (ups f L) - 1), old_x d f i oh L, nth 0 (ups f L) d, rest).
+  Proof.
+    induction f as [|f IH]; intros L i oh rest Hne Hi Hf.
+    - apply size_nat_0 in Hf. assert (i = 0) by lia. subst i. reflexivity.
+    - pose proof (size_nat_S _ _ Hf) as [Hi0 Hf']. rewrite Ndiv2_of_nat in Hf'.
+      assert (Hlen : 2 <= length L) by lia.
+      pose proof (up_ne L Hne) as HupL.
+      assert (Hi' : i / 2 < length (up L)) by (rewrite up_length; lia).
+      cbn [Merkle.cons_loop MerkleSpec.old_x path_bu MerkleSpec.ups]. unfold sib.
+      rewrite Nodd_of_nat, Nltb_of_nat, !Ndiv2_of_nat.
+      rewrite <- (up_last_index L Hne).
+      odd_cases i.
+      + cbn [app]. rewrite <- (IH (up L) (i / 2) _ rest HupL Hi' Hf'). f_equal.
+        rewrite (up_nth_pair T hc d L (i / 2)) by lia. f_equal; f_equal; lia.
+      + destruct (Nat.ltb_spec i (length L - 1)) as [Hlt|Hge].
+        * cbn [app]. rewrite <- (IH (up L) (i / 2) _ rest HupL Hi' Hf'). f_equal.
+          rewrite (up_nth_pair T hc d L (i / 2)) by lia. f_equal; f_equal; lia.
+        * cbn [app]. rewrite <- (IH (up L) (i / 2) _ rest HupL Hi' Hf'). f_equal.
+          rewrite (up_nth_last T hc d L (i / 2)) by lia. f_equal; lia.
+  Qed.
+
+  (** the part of VerifyConsistency after the trailing ones have been stripped *)
+  Definition vc_tail (node last : N) (old_root new_root : T) (proof : list T) : vres :=
+    match proof with
+    | [] => VWrongLength
+    | p0 :: rest0 =>
+        let '(h0, rest) := if (node =? 0)%N then (old_root, proof) else (p0, rest0) in
+        match cons_loop (N.size_nat node) node last h0 h0 rest with
+        | None => VWrongLength
+        | Some (last', oh, nh, rest') =>
+            match up_loop (N.size_nat last') nh rest' with
+            | None => VWrongLength
+            | Some (nh', rest'') =>
+                if negb (teqb nh' new_root) then VNewRootMismatch
+                else if negb (teqb oh old_root) then VOldRootMismatch
+                else match rest'' with [] => VOk | _ :: _ => VTooLong end
+            end
+        end
+    end.
+
+  Lemma verify_consistency_tail m n o r p : (0 < m)%N -> (m < n)%N ->
+    verify_consistency T teqb hc hempty m n o r p =
+      let '(node, last) := strip_ones (N.size_nat (m - 1)) (m - 1) (n - 1) in vc_tail node last o r p.
+  Proof.
+    intros H0 Hlt. unfold verify_consistency.
+    destruct (N.ltb_spec n m); [lia|].
+    destruct (N.eqb_spec m n); [lia|].
+    destruct (N.eqb_spec m 0); [lia|].
+    destruct (strip_ones _ _ _) as [node last]. reflexivity.
+  Qed.
+
+  Lemma teqb_refl x : teqb x x = true.
+  Proof. apply teqb_spec. reflexivity. Qed.
+
+  Lemma vc_tail_complete d L i F : L <> [] -> i < length L - 1 -> i mod 2 = 0 -> length L <= 2 ^ F ->
+    vc_tail (N.of_nat i) (N.of_nat (length L - 1)) (mth (firstn (S i) L)) (mth L)
+      ((if (i =? 0) && true then [] else [nth i L d]) ++ path_bu T hc d F i L) = VOk.
+  Proof.
+    intros HLne Hi Heven HF.
+    set (fi := N.size_nat (N.of_nat i)).
+    pose proof (size_nat_bound fi i eq_refl) as Hfi.
+    set (L' := ups fi L).
+    assert (HL'ne : L' <> []) by (apply ups_length_pos; exact HLne).
+    set (f2 := N.size_nat (N.of_nat (length L' - 1))).
+    pose proof (size_nat_bound f2 (length L' - 1) eq_refl) as Hf2.
+    assert (Hpath : path_bu T hc d F i L = path_bu T hc d fi i L ++ path_bu T hc d f2 0 L').
+    { rewrite (path_bu_rfc T hc hempty d F L i) by lia.
+      rewrite <- (path_bu_rfc T hc hempty d (fi + f2) L i).
+      - rewrite path_bu_add. rewrite (Nat.div_small i (2 ^ fi)) by exact Hfi. reflexivity.
+      - lia.
+      - pose proof (ups_length_bounds T hc hempty fi L) as [Hb1 _]. fold L' in Hb1.
+        rewrite Nat.pow_add_r. pose proof (pow2_pos fi).
+        assert (length L' <= 2 ^ f2) by (destruct L'; simpl in *; [congruence|lia]). nia. }
+    destruct (up_loop_complete d f2 L' [] HL'ne eq_refl) as (top & Htop & Hup).
+    rewrite app_nil_r in Hup.
+    assert (Etop : top = mth L).
+    { apply (top_is_unique L').
+      - exists f2. exact Htop.
+      - unfold L'. apply top_is_ups, top_is_mth. exact HLne. }
+    pose proof (cons_loop_complete d fi L i) as Hc.
+    rewrite Hpath. unfold vc_tail.
+    destruct i as [|i'].
+    - (* the old tree is perfect: start from old_root *)
+      cbn [Nat.eqb andb app]. change fi with 0 in *. cbn [path_bu app] in *.
+      change L' with L in *.
+      destruct (path_bu T hc d f2 0 L) as [|p0 rest0] eqn:Ep.
+      { exfalso. destruct f2 as [|f2']; [simpl in Hf2; lia|].
+        cbn [path_bu] in Ep. unfold sib in Ep. cbn [Nat.odd] in Ep.
+        destruct (Nat.ltb_spec 0 (length L - 1)); [|lia]. cbn in Ep. discriminate. }
+      cbn [N.of_nat N.eqb N.size_nat Merkle.cons_loop].
+      assert (E0 : mth (firstn 1 L) = nth 0 L d) by (destruct L as [|x l]; [congruence|reflexivity]).
+      rewrite E0. fold f2. rewrite Hup, Etop, !teqb_refl. reflexivity.
+    - cbn [Nat.eqb andb app].
+      destruct (N.eqb_spec (N.of_nat (S i')) 0) as [|_]; [lia|].
+      fold fi.
+      rewrite (Hc (nth (S i') L d) (path_bu T hc d f2 0 L') HLne ltac:(lia) eq_refl).
+      fold L'. fold f2. rewrite Hup, Etop, teqb_refl.
+      rewrite (old_x_mth T hc hempty d fi L (S i') ltac:(lia) Hfi), teqb_refl.
+      reflexivity.
+  Qed.
+
+  Theorem cons_complete_lists d (D : list T) (m : nat) : 0 < m -> m < length D ->
+    verify_consistency T teqb hc hempty (N.of_nat m) (N.of_nat (length D))
+      (mth (firstn m D)) (mth D) (cons_bu T hc d (m - 1) D true) = VOk.
+  Proof.
+    intros Hm0 Hlt.
+    rewrite verify_consistency_tail by lia.
+    assert (HDne : D <> []) by (destruct D; simpl in *; [lia|congruence]).
+    replace (N.of_nat m - 1)%N with (N.of_nat (m - 1)) by lia.
+    replace (N.of_nat (length D) - 1)%N with (N.of_nat (length D - 1)) by lia.
+    rewrite strip_ones_spec.
+    pose proof (size_nat_bound _ (m - 1) eq_refl) as Hf0.
+    rewrite (tones_fuel _ _ Hf0). clear Hf0.
+    destruct (tones_spec (m - 1)) as [Hdec Heven].
+    unfold cons_bu.
+    set (t := tones (m - 1) (m - 1)) in *. set (i := (m - 1) / 2 ^ t) in *.
+    pose proof (pow2_pos t) as Hpt.
+    assert (Em : m = (i + 1) * 2 ^ t) by (rewrite Nat.mul_add_distr_r; lia).
+    set (L := ups t D).
+    assert (HLne : L <> []) by (apply ups_length_pos; exact HDne).
+    pose proof (ups_last_index t D HDne) as HlenL. fold L in HlenL.
+    rewrite <- HlenL.
+    assert (HiL : i < length L - 1).
+    { rewrite HlenL. apply Nat.div_le_lower_bound; [lia|].
+      rewrite Nat.mul_add_distr_r in Em. rewrite Nat.mul_comm. lia. }
+    assert (Hold : mth (firstn m D) = mth (firstn (S i) L)).
+    { apply (top_is_unique (firstn (S i) L)).
+      - replace (S i) with (i + 1) by lia. unfold L. rewrite <- (old_prefix_level D m t i) by lia.
+        apply top_is_ups, top_is_mth. destruct D; simpl in *; [lia|]. destruct m; [lia|simpl; congruence].
+      - apply top_is_mth. destruct L; simpl in *; [lia|congruence]. }
+    rewrite Hold, <- (mth_ups T hc hempty t D HDne). fold L.
+    apply vc_tail_complete; try assumption.
+    pose proof (ups_length_le T hc hempty t D). fold L in H.
+    pose proof (Nat.pow_gt_lin_r 2 (length D) ltac:(lia)). lia.
   Qed.
 End Verify.
